@@ -86,6 +86,11 @@ def gen_case(rng, options):
                     srcs[name][key] = [f"clipat{i}_{j}" for j in range(rng.choice([1, 2]))]
                 else:
                     v = GOOD[ty](rng, i)
+                    if ty == "TOptString" and rng.random() < 0.15:
+                        v = ""          # an explicitly empty value is a value: it wins over lower sources
+                    if name == "cli" and v == "" and key == "rst.prefix":
+                        srcs[name][key] = v
+                        continue
                     if name == "cli" and not isinstance(v, str):
                         continue
                     if name == "cli" and (v == "" or v.startswith("-")):
